@@ -59,6 +59,7 @@ type CheckCfg struct {
 	BoundsText   map[string]string `json:"bounds_text"`
 	Known        []KnownCfg        `json:"known"`
 	Replay       *ReplayCfg        `json:"replay"`
+	Include      []string          `json:"include"` // other config files (relative to /verif) whose harness_files, intercept, roots and assumptions are merged in
 }
 
 type ReplayCfg struct {
@@ -139,6 +140,30 @@ func loadCfg(path string) (*CheckCfg, error) {
 	dec.DisallowUnknownFields()
 	if err := dec.Decode(&c); err != nil {
 		return nil, fmt.Errorf("%s: %v", path, err)
+	}
+	for _, inc := range c.Include {
+		ic, err := loadCfg(filepath.Join(*verifDir, inc))
+		if err != nil {
+			return nil, err
+		}
+		if c.HarnessFiles == nil {
+			c.HarnessFiles = map[string]string{}
+		}
+		for k, v := range ic.HarnessFiles {
+			if _, ok := c.HarnessFiles[k]; !ok {
+				c.HarnessFiles[k] = v
+			}
+		}
+		if c.Intercept == nil {
+			c.Intercept = map[string]string{}
+		}
+		for k, v := range ic.Intercept {
+			if _, ok := c.Intercept[k]; !ok {
+				c.Intercept[k] = v
+			}
+		}
+		c.Roots = append(c.Roots, ic.Roots...)
+		c.Assumptions = append(c.Assumptions, ic.Assumptions...)
 	}
 	return &c, nil
 }
